@@ -152,7 +152,7 @@ CHECKS = {
              "array, packed entries at the right bit offsets with the right widths. IdiomsGen (TLC) enumerates every "
              "single variable over the grid and pairs at distinct slots; the harness assembles each description, the real "
              "pipeline analyses it and LayoutTrace.tla evaluates Inv_C04_Expected; random contracts of 1-12 variables "
-             "extend the enumeration. The word-level lifting passes are also judged term by term (Lift.tla: bit provenance of 666/2900 terms enumerated by LiftGen - field reads moved down four ways and masked, packed writes of 1-3 fields, read-modify-write chains): Inv_C04_Expected/lift-bits, /lift-packed, /lift-packed-update.",
+             "extend the enumeration. The word-level lifting passes are also judged term by term (Lift.tla: bit provenance of 666/2900 terms enumerated by LiftGen - field reads moved down four ways and masked, packed writes of 1-3 fields, read-modify-write chains): Inv_C04_Expected/lift-bits, /lift-packed, /lift-packed-update. FlattenTrace.tla checks on every tree FlattenGen enumerates that every leaf of the resolved type is reported at its offset with its width (Inv_C04_Expected/flatten).",
         note="Expected is deliberately weaker than type equality (kind, depth, offsets, widths, 20-byte-ness). One "
              "genuine shortfall is a known finding (fields of a packed variable that are only ever written, through a left shift).",
         technique="TLA+ generator model enumerated by TLC and replayed into the real pipeline; TLC trace validation of the layouts",
@@ -198,7 +198,7 @@ CHECKS = {
              "Inv_C12_InSlot (offset < 256 and offset + width <= 256 when the width is known) evaluated by LayoutTrace.tla "
              "on every successful analysis of every corpus, in particular mask-and-shift programs with shift amounts and "
              "mask positions from {0, 8, 248, 255, 256, 257, 300, 2^32, 2^64-1, 2^64, 2^255, 2^256-1} through SHR/SHL/SAR/"
-             "DIV/MUL, SIGNEXTEND with every boundary constant in either position, nested packed idioms and mutated real contracts. Lift.tla's InWord is evaluated on every term LiftGen enumerates after the real lifting passes ran on it (Inv_C12_InSlot/lift), including positions that leave the word; packed-dataflow programs (fields with holes, shared values packed again high up in other slots, reads that cut fields) and bulk copies of computed constant size extend the generated layouts. PackedMerge.tla / PackedTrace.tla check on every enumerated pair of packed encodings that the spans the real merge returns stay within the inputs' extent and that every piece it places in a span's variable lies within that span's width (Inv_C12_InSlot/packed-merge).",
+             "DIV/MUL, SIGNEXTEND with every boundary constant in either position, nested packed idioms and mutated real contracts. Lift.tla's InWord is evaluated on every term LiftGen enumerates after the real lifting passes ran on it (Inv_C12_InSlot/lift), including positions that leave the word; packed-dataflow programs (fields with holes, shared values packed again high up in other slots, reads that cut fields) and bulk copies of computed constant size extend the generated layouts. PackedMerge.tla / PackedTrace.tla check on every enumerated pair of packed encodings that the spans the real merge returns stay within the inputs' extent and that every piece it places in a span's variable lies within that span's width (Inv_C12_InSlot/packed-merge). Flatten.tla specifies how a resolved slot type becomes layout entries (the leaves of nested packed encodings, each at the sum of the offsets on its way down); FlattenGen enumerates 1 782 / 14 095 trees of depth <= 2, the real unifier and layout builder convert each, and FlattenTrace.tla checks Inv_C12_InSlot/flatten and Inv_C12_Sorted/flatten.",
         note="Width is defined for every AbiType of known width.",
         technique="TLA+ layout well-formedness invariants; TLC trace validation",
         ref="DESIGN.md §4 C12"),
